@@ -129,7 +129,7 @@ func rebase(ref *Ref, v *url.URL, notEqual bool) (Ref, bool) {
 
 	newBase.Fragment = u.Fragment
 
-	if strings.HasPrefix(u.Path, docPath) {
+	if u.Path == docPath || strings.HasPrefix(u.Path, docPath+"/") {
 		newBase.Path = strings.TrimPrefix(u.Path, docPath)
 	} else {
 		newBase.Path = strings.TrimPrefix(u.Path, v.Path)
